@@ -13,7 +13,6 @@ import (
 	"fmt"
 	"os"
 	"sync"
-	"sync/atomic"
 	"time"
 	"unsafe"
 )
@@ -257,18 +256,12 @@ func (s *Sched) partnerFor(tid int32, ch uintptr, want int32, from int32) (int32
 //
 //go:norace
 func (s *Sched) caseChoices(tid int32, caseIdx int32, dir int32, ch uintptr, poll func() bool, out *[maxChoices]choice, n int32) int32 {
-	add := func(p int32) {
-		if n < maxChoices {
-			out[n] = choice{tid: tid, caseIdx: caseIdx, partner: p}
-			n++
-		}
-	}
 	switch dir {
 	case dirDefault:
 		// handled by the caller (only when nothing else is ready)
 	case dirForeign:
 		if poll != nil && poll() {
-			add(-1)
+			n = addChoice(out, n, tid, caseIdx, -1)
 		}
 	case dirRecv:
 		c := s.chanOf(ch)
@@ -276,8 +269,7 @@ func (s *Sched) caseChoices(tid int32, caseIdx int32, dir int32, ch uintptr, pol
 			return n
 		}
 		if c.n > 0 {
-			add(-1)
-			return n
+			return addChoice(out, n, tid, caseIdx, -1)
 		}
 		from := int32(0)
 		found := false
@@ -286,12 +278,12 @@ func (s *Sched) caseChoices(tid int32, caseIdx int32, dir int32, ch uintptr, pol
 			if p < 0 {
 				break
 			}
-			add(p)
+			n = addChoice(out, n, tid, caseIdx, p)
 			found = true
 			from = p + 1
 		}
 		if !found && c.closed {
-			add(-1)
+			n = addChoice(out, n, tid, caseIdx, -1)
 		}
 	case dirSend:
 		c := s.chanOf(ch)
@@ -299,8 +291,7 @@ func (s *Sched) caseChoices(tid int32, caseIdx int32, dir int32, ch uintptr, pol
 			return n
 		}
 		if c.closed {
-			add(-1) // will panic, as in Go
-			return n
+			return addChoice(out, n, tid, caseIdx, -1) // will panic, as in Go
 		}
 		from := int32(0)
 		found := false
@@ -309,13 +300,22 @@ func (s *Sched) caseChoices(tid int32, caseIdx int32, dir int32, ch uintptr, pol
 			if p < 0 {
 				break
 			}
-			add(p)
+			n = addChoice(out, n, tid, caseIdx, p)
 			found = true
 			from = p + 1
 		}
 		if !found && c.n < c.cap {
-			add(-1)
+			n = addChoice(out, n, tid, caseIdx, -1)
 		}
+	}
+	return n
+}
+
+//go:norace
+func addChoice(out *[maxChoices]choice, n, tid, caseIdx, partner int32) int32 {
+	if n < maxChoices {
+		out[n] = choice{tid: tid, caseIdx: caseIdx, partner: partner}
+		n++
 	}
 	return n
 }
@@ -565,7 +565,6 @@ func (s *Sched) comm(tid, caseIdx, dir int32, ch uintptr, val any, partner int32
 //go:norace
 func (s *Sched) finish() {
 	if s.futex {
-		atomic.StoreInt32(&s.doneW, 1)
 		futexUnpark(&s.doneW)
 		return
 	}
@@ -577,7 +576,7 @@ func (s *Sched) finish() {
 //
 //go:norace
 func (s *Sched) abort() {
-	atomic.StoreInt32(&s.aborted, 1)
+	storeWord(&s.aborted, 1)
 	s.finish()
 	// the calling thread must not continue running the program
 	select {}
@@ -726,7 +725,7 @@ func (s *Sched) newThread(name string) int32 {
 
 //go:norace
 func (s *Sched) exit() {
-	if atomic.LoadInt32(&s.aborted) != 0 {
+	if loadWord(&s.aborted) != 0 {
 		return
 	}
 	t := &s.threads[s.cur]
@@ -786,7 +785,7 @@ func Run(prefix []int32, futexMode bool, body func(s *Sched)) Result {
 		fmt.Fprintln(os.Stderr, "vsched: watchdog: a controlled thread blocked for real (uninstrumented blocking operation)")
 		return Result{Failed: 4, FailMsg: "watchdog: controlled thread blocked in an uninstrumented operation", Sched: s}
 	}
-	if atomic.LoadInt32(&s.aborted) == 0 {
+	if loadWord(&s.aborted) == 0 {
 		s.wg.Wait() // real join: thread -> driver ordering is visible to the race detector
 	}
 	S = nil
